@@ -299,3 +299,16 @@ impl<'j> dukebox::storage::IsClass for LazyClass<'j> {
         dukebox::storage::ClassRepr::Vec { data: self.1.to_vec() }
     }
 }
+
+/// A `LazyJar` that can be handed over by value (`merge` and `remap` consume their jars) while the harness keeps
+/// the event log.
+pub struct SharedLazy(pub Arc<LazyJar>);
+impl Jar for SharedLazy {
+    type Opened<'a> = LazyOpened<'a> where Self: 'a;
+    fn open(&self) -> Result<Self::Opened<'_>> {
+        self.0.open()
+    }
+    fn put_to_file<'a>(&'a self, s: &'a Path) -> Result<&'a Path> {
+        self.0.put_to_file(s)
+    }
+}
